@@ -288,25 +288,34 @@ def fnv1a(s):
 
 # ---------------------------------------------------------------------- API scripts
 
-def emit(b, t, rng, shared=None):
-    """append the commands that build t through the public API; returns the slot"""
+def emit(b, t, rng, shared=None, rec=None, path=()):
+    """append the commands that build t through the public API; returns the slot.
+    rec (dict): path -> (subtree, slot) for every entity built on the way (paths are tuples such as
+    ('comp', 0, 'var', 1, 'units'); () is t itself)"""
+    def note(s):
+        if rec is not None:
+            rec[path] = (t, s)
+        return s
+
+    def sub(x, *step, **kw):
+        return emit(b, x, rng, rec=rec, path=path + tuple(step), **kw)
     k = t[0]
     if k == 'I':
         s = b.importsource()
         b.cmd("seturl", s, S(t[1]))
         b.cmd("setid", s, S(t[2]))
-        return s
+        return note(s)
     if k == 'U':
         s = b.units(t[1])
         if t[2] != "" or rng.random() < 0.3:
             b.cmd("setid", s, S(t[2]))
         if t[3] is not None:
-            b.cmd("setimportsource", s, emit(b, t[3], rng))
+            b.cmd("setimportsource", s, sub(t[3], 'imp'))
         if t[4] != "" or rng.random() < 0.3:
             b.cmd("setimportreference", s, S(t[4]))
         for d in t[5]:
             b.cmd("addunit", s, S(d[1]), S(d[2]), dval(d[3]), dval(d[4]), S(d[5]))
-        return s
+        return note(s)
     if k == 'V':
         s = b.variable(t[1])
         b.cmd("setid", s, S(t[2]))
@@ -315,57 +324,77 @@ def emit(b, t, rng, shared=None):
             if u == ('U', u[1], "", None, "", ()) and rng.random() < 0.7:
                 b.cmd("setunits_n", s, S(u[1]))
             else:
-                b.cmd("setunits_p", s, emit(b, u, rng))
+                b.cmd("setunits_p", s, sub(u, 'units'))
         b.cmd("setinitialvalue_s", s, S(t[4]))
         if t[5] != "" or rng.random() < 0.5:
             b.cmd("setinterfacetype_s", s, S(t[5]))
-        return s
+        return note(s)
     if k == 'R':
         s = b.reset()
         b.cmd("setid", s, S(t[1]))
         if t[2] != 0 or rng.random() < 0.5:      # order 0 may be left unset: equals does not look at isOrderSet
             b.cmd("setorder", s, t[2])
-        for i, cmd in ((3, "setvariable"), (4, "settestvariable")):
+        for i, cmd, nm in ((3, "setvariable", 'rvar'), (4, "settestvariable", 'rtest')):
             if t[i] is not None:
                 if shared is not None and t[i] in shared and rng.random() < 0.7:
-                    vs = shared[t[i]]
+                    vs = shared[t[i]]           # the reset refers to a variable of its own component
                 else:
-                    vs = emit(b, t[i], rng)
+                    vs = sub(t[i], nm)
                 b.cmd(cmd, s, vs)
         b.cmd("settestvalue", s, S(t[5]))
         b.cmd("settestvalueid", s, S(t[6]))
         b.cmd("setresetvalue", s, S(t[7]))
         b.cmd("setresetvalueid", s, S(t[8]))
-        return s
+        return note(s)
     if k == 'C':
         s = b.component(t[1])
         b.cmd("setid", s, S(t[2]))
         b.cmd("setencapsulationid", s, S(t[3]))
         b.cmd("setmath", s, S(t[4]))
         if t[5] is not None:
-            b.cmd("setimportsource", s, emit(b, t[5], rng))
+            b.cmd("setimportsource", s, sub(t[5], 'imp'))
         if t[6] != "" or rng.random() < 0.3:
             b.cmd("setimportreference", s, S(t[6]))
         sh = {}
-        for v in t[7]:
-            vs = emit(b, v, rng)
+        for n, v in enumerate(t[7]):
+            vs = sub(v, 'var', n)
             sh[v] = vs
             b.cmd("addvariable", s, vs)
-        for r in t[8]:
-            b.cmd("addreset", s, emit(b, r, rng, sh))
-        for c in t[9]:
-            b.cmd("addcomponent", s, emit(b, c, rng))
-        return s
+        for n, r in enumerate(t[8]):
+            b.cmd("addreset", s, sub(r, 'reset', n, shared=sh))
+        for n, c in enumerate(t[9]):
+            b.cmd("addcomponent", s, sub(c, 'kid', n))
+        return note(s)
     if k == 'M':
         s = b.model(t[1])
         b.cmd("setid", s, S(t[2]))
         b.cmd("setencapsulationid", s, S(t[3]))
-        for u in t[4]:
-            b.cmd("addunits", s, emit(b, u, rng))
-        for c in t[5]:
-            b.cmd("addcomponent", s, emit(b, c, rng))
-        return s
+        for n, u in enumerate(t[4]):
+            b.cmd("addunits", s, sub(u, 'units', n))
+        for n, c in enumerate(t[5]):
+            b.cmd("addcomponent", s, sub(c, 'comp', n))
+        return note(s)
     raise ValueError(k)
+
+
+def subtree(t, path):
+    """the sub-entity of t at a path recorded by emit (None when the path does not exist)"""
+    fields = {'U': {'imp': 3}, 'V': {'units': 3}, 'R': {'rvar': 3, 'rtest': 4},
+              'C': {'imp': 5, 'var': 7, 'reset': 8, 'kid': 9}, 'M': {'units': 4, 'comp': 5}}
+    i = 0
+    while i < len(path):
+        f = fields.get(t[0], {}).get(path[i])
+        if f is None or t[f] is None:
+            return None
+        if path[i] in ('var', 'reset', 'kid', 'units', 'comp') and t[0] in ('C', 'M'):
+            if path[i + 1] >= len(t[f]):
+                return None
+            t = t[f][path[i + 1]]
+            i += 2
+        else:
+            t = t[f]
+            i += 1
+    return t
 
 
 # ---------------------------------------------------------------------- facts about trees (known-finding matchers, coverage)
@@ -438,14 +467,6 @@ def top_counts(t):
     if k == 'M':
         return (len(t[4]), len(t[5]))
     return ()
-
-
-def size(t):
-    if t is None:
-        return 0
-    if isinstance(t, tuple):
-        return 1 + sum(size(x) for x in t[1:] if isinstance(x, tuple))
-    return 0
 
 
 def tsize(t):
